@@ -20,7 +20,8 @@ PROP = {
                  "Grol.Macro.C13.expandCb_hand", "Grol.Macro.C13.expandCb_simple", "Grol.Macro.C13.hand_bridge",
                  "Grol.Macro.C13.hand_bridgeList", "Grol.Macro.C13.envOK_extend", "Grol.Macro.C13.lookupArg_extend",
                  "Grol.Macro.C13.lookup_zip_none", "Grol.Macro.C13.simpleTemplate_some", "Grol.Macro.C13.handExpandList_append",
-                 "Grol.Macro.C13.unquoteParam_some", "Grol.Macro.C13.identName_some"],
+                 "Grol.Macro.C13.unquoteParam_some", "Grol.Macro.C13.identName_some",
+                 "Grol.Macro.C13.distinct_eq_eraseDups", "Grol.Macro.C13.simpleTemplate_eq_suite"],
     "suites": ["macro"],
     "rule": "macro suite: every case is a session of 1..5 inputs on one persistent eval.State; per input the harness runs the REAL parser, "
             "State.DefineMacros, State.ExpandMacros (only when the store is not empty, as repl.evalOne), the printer (normal + compact) with "
